@@ -44,6 +44,33 @@ def literals(expr, truth):
       parts.append(ast.Compare(left=left, ops=[op], comparators=[right]))
       left = right
     return literals(ast.BoolOp(op=ast.And(), values=parts), truth)
+  # None in (a, b)  ==  a is None or b is None        (a tuple / list display; None compares equal only to None)
+  if isinstance(expr, ast.Compare) and len(expr.ops) == 1 and isinstance(expr.ops[0], (ast.In, ast.NotIn)) \
+      and isinstance(expr.left, ast.Constant) and expr.left.value is None and isinstance(expr.comparators[0], (ast.Tuple, ast.List)) \
+      and 0 < len(expr.comparators[0].elts) <= 4 and not any(isinstance(x, ast.Starred) for x in expr.comparators[0].elts):
+    parts = [ast.Compare(left=x, ops=[ast.Is()], comparators=[ast.Constant(value=None)]) for x in expr.comparators[0].elts]
+    want = truth if isinstance(expr.ops[0], ast.In) else not truth
+    return literals(ast.BoolOp(op=ast.Or(), values=parts) if len(parts) > 1 else parts[0], want)
+  # (A if c else B) is None  ==  (c and A is None) or (not c and B is None)
+  if isinstance(expr, ast.Compare) and len(expr.ops) == 1 and isinstance(expr.ops[0], (ast.Is, ast.IsNot)) and isinstance(expr.left, ast.IfExp) \
+      and isinstance(expr.comparators[0], ast.Constant) and expr.comparators[0].value is None:
+    ie = expr.left
+    mk = lambda x: ast.Compare(left=x, ops=[expr.ops[0]], comparators=[ast.Constant(value=None)])
+    split = ast.BoolOp(op=ast.Or(), values=[ast.BoolOp(op=ast.And(), values=[ie.test, mk(ie.body)]),
+                                              ast.BoolOp(op=ast.And(), values=[ast.UnaryOp(op=ast.Not(), operand=ie.test), mk(ie.orelse)])])
+    return literals(split, truth)
+  # None is None / <constant> is None / int(x) is None
+  if isinstance(expr, ast.Compare) and len(expr.ops) == 1 and isinstance(expr.ops[0], (ast.Is, ast.IsNot)) \
+      and isinstance(expr.comparators[0], ast.Constant) and expr.comparators[0].value is None:
+    l = expr.left
+    isnone = None
+    if isinstance(l, ast.Constant):
+      isnone = l.value is None
+    elif isinstance(l, ast.Call) and isinstance(l.func, ast.Name) and l.func.id in ('int', 'float', 'str', 'bool', 'len', 'list', 'tuple', 'set', 'dict'):
+      isnone = False
+    if isnone is not None:
+      val = isnone if isinstance(expr.ops[0], ast.Is) else not isnone
+      return [[]] if val == truth else []
   return [[(expr, truth)]]
 
 
@@ -108,6 +135,22 @@ def consistent(conj):
       return False
     if isinstance(e, ast.Constant) and bool(e.value) != t:
       return False        # a literal test (`... or True`, a table entry substituted by unrolling) taken the impossible way
+    if isinstance(e, ast.Compare) and len(e.ops) == 1 and isinstance(e.left, ast.Constant) and isinstance(e.comparators[0], ast.Constant):
+      a_, b_, op_ = e.left.value, e.comparators[0].value, e.ops[0]
+      val_ = None
+      try:
+        if isinstance(op_, ast.Eq):
+          val_ = a_ == b_
+        elif isinstance(op_, ast.NotEq):
+          val_ = a_ != b_
+        elif isinstance(op_, (ast.Is, ast.IsNot)) and (a_ is None or b_ is None or isinstance(a_, bool) or isinstance(b_, bool)):
+          val_ = (a_ is b_) if isinstance(op_, ast.Is) else (a_ is not b_)
+        elif isinstance(op_, (ast.Lt, ast.LtE, ast.Gt, ast.GtE)) and isinstance(a_, (int, float)) and isinstance(b_, (int, float)):
+          val_ = {ast.Lt: a_ < b_, ast.LtE: a_ <= b_, ast.Gt: a_ > b_, ast.GtE: a_ >= b_}[type(op_)]
+      except Exception:
+        val_ = None
+      if val_ is not None and bool(val_) != t:
+        return False      # a comparison of two constants (a result code threaded into a branch) taken the impossible way
     if (not t) and isinstance(e, ast.Compare) and len(e.ops) == 1 and isinstance(e.ops[0], ast.IsNot) \
         and never_true(ast.Compare(left=e.left, ops=[ast.Is()], comparators=e.comparators)):
       return False        # `x is not <fresh object>` is always true
